@@ -33,14 +33,20 @@ class Module:
         self.tree = ast.parse(src, filename=str(path))
         self.renamed = []
         self.canon = {}
+        self.inlined = []
+        global _REF
+        if _REF is None and not (os.environ.get("MOKAPOT_NO_REFNAMES")
+                                 and os.environ.get("MOKAPOT_NO_INLINE")):
+            from .refnames import load_ref
+            _REF = load_ref()
+        if not os.environ.get("MOKAPOT_NO_INLINE") and _REF:
+            from .inline import inline_unknown_helpers
+            self.inlined = inline_unknown_helpers(self.tree, name, _REF)
         if not os.environ.get("MOKAPOT_NO_CANON"):
             from .canon import canonicalise
             self.canon = canonicalise(self.tree)
         if not os.environ.get("MOKAPOT_NO_REFNAMES"):
-            from .refnames import load_ref, normalise_module
-            global _REF
-            if _REF is None:
-                _REF = load_ref()
+            from .refnames import normalise_module
             self.renamed = normalise_module(self.tree, name, _REF)
         self.imports: dict[str, str] = {}
         self.assigns: dict[str, ast.AST] = {}
@@ -157,6 +163,8 @@ class Program:
         self.stats["modules"] = len(self.modules)
         self.stats["functions_alpha_normalised"] = sum(
             len(m.renamed) for m in self.modules.values())
+        self.stats["helper_calls_inlined"] = sum(
+            len(m.inlined) for m in self.modules.values())
         tot = {}
         for m in self.modules.values():
             for k, v in m.canon.items():
